@@ -719,6 +719,173 @@ func main() {
 		emitStrList("callerSliceUses", all, len(all) > 0)
 	}
 
+	// --- the caller's slices are not modified (C11, second clause): which functions of the package write through a
+	// slice parameter, where those are called and with what, and what Search does with the query vector
+	{
+		norm := func(n ast.Node) string { return strings.Join(strings.Fields(src(n)), " ") }
+		rootFiles := []string{"collection.go", "lshtree.go", "spanfile.go", "freemap.go", "quantization.go", "dump.go", "rest.go"}
+		writers := map[string]bool{}
+		var wl []string
+		for _, fn := range rootFiles {
+			for _, d := range files[fn].Decls {
+				fd, ok := d.(*ast.FuncDecl)
+				if !ok || fd.Body == nil {
+					continue
+				}
+				params := map[string]bool{}
+				for _, f := range fd.Type.Params.List {
+					if at, ok := f.Type.(*ast.ArrayType); ok && at.Len == nil {
+						for _, n := range f.Names {
+							params[n.Name] = true
+						}
+					}
+				}
+				if len(params) == 0 {
+					continue
+				}
+				hit := map[string]bool{}
+				target := func(e ast.Expr) {
+					for {
+						switch x := e.(type) {
+						case *ast.IndexExpr:
+							e = x.X
+							continue
+						case *ast.SliceExpr:
+							e = x.X
+							continue
+						case *ast.ParenExpr:
+							e = x.X
+							continue
+						}
+						break
+					}
+					if id, ok := e.(*ast.Ident); ok && params[id.Name] {
+						hit[id.Name] = true
+					}
+				}
+				ast.Inspect(fd.Body, func(x ast.Node) bool {
+					switch st := x.(type) {
+					case *ast.AssignStmt:
+						for _, l := range st.Lhs {
+							if _, ok := l.(*ast.Ident); !ok {
+								target(l)
+							}
+						}
+					case *ast.IncDecStmt:
+						if _, ok := st.X.(*ast.Ident); !ok {
+							target(st.X)
+						}
+					case *ast.CallExpr:
+						if id, ok := st.Fun.(*ast.Ident); ok && id.Name == "copy" && len(st.Args) == 2 {
+							target(st.Args[0])
+						}
+						if se, ok := st.Fun.(*ast.SelectorExpr); ok && strings.HasPrefix(se.Sel.Name, "Put") && len(st.Args) >= 1 {
+							target(st.Args[0]) // binary.BigEndian.PutUint32(p[i:], …)
+						}
+					}
+					return true
+				})
+				var hs []string
+				for h := range hit {
+					hs = append(hs, h)
+				}
+				sort.Strings(hs)
+				for _, h := range hs {
+					wl = append(wl, fd.Name.Name+":"+h)
+					writers[fd.Name.Name] = true
+				}
+			}
+		}
+		sort.Strings(wl)
+		emitStrList("paramSliceWriters", wl, true)
+		var calls []string
+		for _, fn := range rootFiles {
+			for _, d := range files[fn].Decls {
+				fd, ok := d.(*ast.FuncDecl)
+				if !ok || fd.Body == nil {
+					continue
+				}
+				ast.Inspect(fd.Body, func(x ast.Node) bool {
+					if c, ok := x.(*ast.CallExpr); ok {
+						name := ""
+						switch f := c.Fun.(type) {
+						case *ast.Ident:
+							name = f.Name
+						case *ast.SelectorExpr:
+							name = f.Sel.Name
+						}
+						if writers[name] {
+							calls = append(calls, fd.Name.Name+": "+norm(c))
+						}
+					}
+					return true
+				})
+			}
+		}
+		sort.Strings(calls)
+		emitStrList("sliceWriterCalls", calls, true)
+		var qv []string
+		if fs := method("collection.go", "Collection", "Search"); fs != nil {
+			var walk func(list []ast.Stmt)
+			mentions := func(n ast.Node) bool {
+				hit := false
+				ast.Inspect(n, func(x ast.Node) bool {
+					if se, ok := x.(*ast.SelectorExpr); ok && se.Sel.Name == "Vector" {
+						if id, ok := se.X.(*ast.Ident); ok && id.Name == "args" {
+							hit = true
+						}
+					}
+					return true
+				})
+				return hit
+			}
+			walk = func(list []ast.Stmt) {
+				for _, st := range list {
+					if !mentions(st) {
+						continue
+					}
+					inner := false
+					ast.Inspect(st, func(x ast.Node) bool {
+						if x == st {
+							return true
+						}
+						switch b := x.(type) {
+						case *ast.BlockStmt:
+							if mentions(b) {
+								inner = true
+								walk(b.List)
+							}
+							return false
+						case *ast.FuncLit:
+							if mentions(b.Body) {
+								inner = true
+								walk(b.Body.List)
+							}
+							return false
+						}
+						return true
+					})
+					if !inner {
+						qv = append(qv, norm(st))
+					}
+				}
+			}
+			walk(fs.Body.List)
+			// the whole argument struct handed to anything else would carry the slice along
+			ast.Inspect(fs.Body, func(x ast.Node) bool {
+				if c, ok := x.(*ast.CallExpr); ok {
+					for _, a := range c.Args {
+						if id, ok := a.(*ast.Ident); ok && id.Name == "args" {
+							qv = append(qv, "args passed whole: "+norm(c))
+						}
+					}
+				}
+				return true
+			})
+		}
+		emitStrList("searchVectorUses", qv, len(qv) > 0)
+	}
+
 	// --- the glue between Search and the document store (C03/C16 collection-level theorems):
 	// what `consider` reads, what the exact scan and the listing make of an index entry
 	{
@@ -1198,21 +1365,53 @@ func main() {
 			}
 			found++
 			recv := fd.Recv.List[0].Names[0].Name
+			// locals that name a part of the receiver (`visited := tree.visited`): a write through one of them is a
+			// write to shared state all the same
+			shared := map[string]bool{recv: true}
+			for pass := 0; pass < 3; pass++ {
+				ast.Inspect(fd.Body, func(x ast.Node) bool {
+					if st, ok := x.(*ast.AssignStmt); ok && len(st.Lhs) == len(st.Rhs) {
+						for i, l := range st.Lhs {
+							id, isIdent := l.(*ast.Ident)
+							if !isIdent || id.Name == "_" {
+								continue
+							}
+							rhs := st.Rhs[i]
+							if u, ok := rhs.(*ast.UnaryExpr); ok && u.Op == token.AND {
+								rhs = u.X
+							}
+							switch rhs.(type) {
+							case *ast.SelectorExpr, *ast.IndexExpr, *ast.SliceExpr, *ast.StarExpr, *ast.Ident:
+								if _, same := rhs.(*ast.Ident); same && pass == 0 {
+									continue
+								}
+								if shared[rootOf(rhs)] && rootOf(rhs) != "" {
+									shared[id.Name] = true
+								}
+							}
+						}
+					}
+					return true
+				})
+			}
 			ast.Inspect(fd.Body, func(x ast.Node) bool {
 				switch st := x.(type) {
 				case *ast.AssignStmt:
 					for _, l := range st.Lhs {
-						if _, isIdent := l.(*ast.Ident); !isIdent && rootOf(l) == recv {
+						if _, isIdent := l.(*ast.Ident); !isIdent && shared[rootOf(l)] {
 							rw = append(rw, r.name+": "+strings.Join(strings.Fields(src(st)), " "))
 						}
 					}
 				case *ast.IncDecStmt:
-					if _, isIdent := st.X.(*ast.Ident); !isIdent && rootOf(st.X) == recv {
+					if _, isIdent := st.X.(*ast.Ident); !isIdent && shared[rootOf(st.X)] {
 						rw = append(rw, r.name+": "+strings.Join(strings.Fields(src(st)), " "))
 					}
 				case *ast.CallExpr:
-					if f, ok := st.Fun.(*ast.SelectorExpr); ok && mutators[f.Sel.Name] && rootOf(f.X) == recv {
+					if f, ok := st.Fun.(*ast.SelectorExpr); ok && mutators[f.Sel.Name] && shared[rootOf(f.X)] {
 						rw = append(rw, r.name+": call "+strings.Join(strings.Fields(src(st.Fun)), " "))
+					}
+					if f, ok := st.Fun.(*ast.Ident); ok && (f.Name == "clear" || f.Name == "delete") && len(st.Args) > 0 && shared[rootOf(st.Args[0])] {
+						rw = append(rw, r.name+": "+strings.Join(strings.Fields(src(st)), " "))
 					}
 				}
 				return true
